@@ -6,5 +6,7 @@ CONSTANTS
   Part = "links"
   ListStyle = "byname"
   Chains = FALSE
+  Configs = {"default"}
+  SampleConfigs = {}
 INVARIANT LinksRefineP
 CHECK_DEADLOCK FALSE
